@@ -86,6 +86,8 @@ static std::unique_ptr<PointCloud> gen_pc(Rng &r) {
     return pb.Finalize(false);
   }
   PointCloudBuilder pb; int n = (int)r.range(1, 90); pb.Start(n);
+  int wide = r.chance(35) ? pb.AddAttribute(GeometryAttribute::GENERIC, 7, DT_FLOAT32) : -1;   // wider than the explicit quantization origin some option sets give
+  if (wide >= 0) for (int i = 0; i < n; i++) { float v[7]; for (int c = 0; c < 7; c++) v[c] = (float)r.range(0, 1000) / 16.f; pb.SetAttributeValueForPoint(wide, PointIndex(i), v); }
   int pos = pb.AddAttribute(GeometryAttribute::POSITION, 3, DT_FLOAT32); int col = r.chance(60) ? pb.AddAttribute(GeometryAttribute::COLOR, 4, DT_UINT8) : -1; int gen = r.chance(40) ? pb.AddAttribute(GeometryAttribute::GENERIC, 1, DT_UINT32) : -1;
   for (int i = 0; i < n; i++) { float p[3] = {(float)r.range(-900, 900) / 16.f, (float)r.range(-900, 900) / 16.f, (float)r.range(-90, 90) / 4.f}; pb.SetAttributeValueForPoint(pos, PointIndex(i), p);
     if (col >= 0) { uint8_t c[4] = {(uint8_t)r.below(256), (uint8_t)r.below(4), (uint8_t)i, 255}; pb.SetAttributeValueForPoint(col, PointIndex(i), c); } if (gen >= 0) { uint32_t g = (uint32_t)r.below(5000); pb.SetAttributeValueForPoint(gen, PointIndex(i), &g); } }
@@ -93,8 +95,11 @@ static std::unique_ptr<PointCloud> gen_pc(Rng &r) {
 }
 
 
-struct Opt { bool mesh; int method, speed, sub, qpos; bool builtin; };
+struct Opt { bool mesh; int method, speed, sub, qpos; bool builtin; int expl_dims = 0; };
 static void configure(Encoder &enc, const Opt &o) {
+  // explicit quantization shared by all attributes of a type, with an origin of fewer dimensions than some attribute has components
+  // (the missing origin components are zero by definition of the option vector, never leftovers of the heap)
+  if (o.expl_dims > 0) { float origin[3] = {-1.f, 0.25f, -3.f}; enc.SetAttributeExplicitQuantization(GeometryAttribute::GENERIC, 12, o.expl_dims, origin, 80.f); }
   enc.SetEncodingMethod(o.method); enc.SetSpeedOptions(o.speed, o.speed);
   enc.SetAttributeQuantization(GeometryAttribute::POSITION, o.qpos); enc.SetAttributeQuantization(GeometryAttribute::TEX_COORD, 10); enc.SetAttributeQuantization(GeometryAttribute::NORMAL, 8);
   if (o.mesh && o.method == MESH_EDGEBREAKER_ENCODING) enc.options().SetGlobalInt("edgebreaker_method", o.sub);
@@ -114,7 +119,7 @@ static uint64_t battery(bool thorough, uint64_t seed, Out *o, long *count) {
     int nopt = thorough ? 4 : 3;
     for (int k = 0; k < nopt; k++) {
       Opt op; op.mesh = mesh; op.method = mesh ? (r.chance(70) ? MESH_EDGEBREAKER_ENCODING : MESH_SEQUENTIAL_ENCODING) : (r.chance(50) ? POINT_CLOUD_KD_TREE_ENCODING : POINT_CLOUD_SEQUENTIAL_ENCODING);
-      op.speed = (int)r.below(11); op.sub = r.chance(50) ? MESH_EDGEBREAKER_VALENCE_ENCODING : MESH_EDGEBREAKER_STANDARD_ENCODING; op.qpos = (int)r.range(8, 14); op.builtin = !r.chance(20);
+      op.speed = (int)r.below(11); op.sub = r.chance(50) ? MESH_EDGEBREAKER_VALENCE_ENCODING : MESH_EDGEBREAKER_STANDARD_ENCODING; op.qpos = (int)r.range(8, 14); op.builtin = !r.chance(20); op.expl_dims = r.chance(35) ? (int)r.range(1, 3) : 0;
       Encoder fresh; configure(fresh, op); EncoderBuffer eb1; if (!encode(fresh, *g, mesh, eb1)) continue;
       std::string tag = std::string(mesh ? "mesh" : "pc") + " method=" + S(op.method) + " speed=" + S(op.speed) + " sub=" + S(op.sub) + " q=" + S(op.qpos) + " builtin=" + S(op.builtin) + " geo#" + S(i);
       (*count)++;
